@@ -24,6 +24,10 @@ CLAIMED = {
          'Theorem C16 proves for any duplicate-free list of sides, any originating side and any origin/fwd markers that the local side sees the message once, every other side exactly once iff it carries the forward flag and no foreign origin, and nobody otherwise; C16_quiescent shows the network is quiet after two hops for any hop budget (no circulation); C16_content shows what remote sides receive. The real closures are obtained from the real Session.crosswire_pubsub and compared on all marker combinations; whole topologies (1 client + 0..4/7 pilots) run through the real _crosswire_proxy wiring.',
          'Trusted: Lean kernel, harness in-memory bus (lossless, copy per subscriber) in place of ZMQ; distinct module names per side.',
          'DESIGN.md section 6 C16'),
+ 'C17': ('Lean 4 proof: decide +kernel over the complete regenerated platform table (translator from configs/*.json + factory ASTs) and arithmetic proofs (ceiling-division minimality) for the sizing model + exhaustive cross-check of the table against the real Session.get_resource_config and differential run of the real _prepare_pilot on every shipped row',
+         'C17_resolves is a kernel-checked decision over every shipped resource x access-schema row (120 today), re-generated from the JSON files and factory dict literals on each run; C17_least proves that the node count is the least number of whole nodes covering the requested cores and GPUs (blocked cores/GPUs and hardware threads included), C17_agree that the agent configuration carries the same node/core/GPU figures as the batch job, C17_nodes_given the explicit-node case. The sizing model is compared with the real PMGRLaunchingComponent._prepare_pilot for every row x 10 (quick) / 120 (thorough) pilot sizes.',
+         'Trusted: Lean kernel (decide +kernel uses no axioms), translator (its table is compared with the real get_resource_config for every row), radical.utils config loader; float ceil == integer ceiling on the tied range; batch-system translation of the job description not modelled.',
+         'DESIGN.md section 6 C17'),
 }
 
 NOT_YET = {}
